@@ -54,6 +54,21 @@ def _connected_spec(rng):
     return {"nodes": nodes, "edges": edges, "labels": "int"}
 
 
+def _connected(n, edges):
+    parent = list(range(n))
+
+    def find(x):
+        while parent[x] != x:
+            parent[x] = parent[parent[x]]
+            x = parent[x]
+        return x
+
+    for e in edges:
+        for v in e[1:]:
+            parent[find(v)] = find(e[0])
+    return len({find(i) for i in range(n)}) == 1 and all(any(i in e for e in edges) for i in range(n))
+
+
 def generate(seed, tier):
     rng = random.Random(seed)
     if rng.random() < 0.4:
@@ -63,7 +78,20 @@ def generate(seed, tier):
         if rng.random() < 0.3:
             dens = [0.0] * n
             dens[rng.randrange(n)] = 1.0
-        return {"family": "walk", "seed": seed, "q": rng.choice([0.0, 0.1, 0.4]), "spec": spec,
+        # history on the walked object: rewire (same node and hyperedge counts, still connected) and query again
+        rewires = []
+        cur = [list(e) for e in spec["edges"]]
+        for _ in range(rng.randint(0, 3)):
+            for _try in range(20):
+                i = rng.randrange(len(cur))
+                k = len(cur[i])
+                new = rng.sample(spec["nodes"], k)
+                cand = cur[:i] + cur[i + 1:] + [new]
+                if len({frozenset(e) for e in cand}) == len(cand) and _connected(n, cand):
+                    rewires.append([cur[i], new])
+                    cur = cand
+                    break
+        return {"family": "walk", "seed": seed, "q": rng.choice([0.0, 0.1, 0.4]), "spec": spec, "rewires": rewires,
                 "start": rng.randrange(n), "time": rng.randint(0, 30 if tier == "quick" else 200), "density": dens}
     spec = _gen.rand_hypergraph_spec(rng, nmin=3, nmax=8, emin=1, emax=9, smin=2, smax=4, singletons=0.1)
     T = rng.randint(1, 12)
@@ -173,13 +201,25 @@ def _exec_contagion(case, stats, traces):
 
 
 def _exec_walk(case, stats, traces):
-    from hypergraphx.dynamics import randwalk as RW
-
     spec = case["spec"]
     h = _gen.build_hypergraph(spec)
+    edges = [list(e) for e in spec["edges"]]
+    head = _walk_state(case, h, {"nodes": spec["nodes"], "edges": edges}, stats, traces, 0)
+    for idx, (old, new) in enumerate(case.get("rewires", []), start=1):
+        h.remove_edge(tuple(old))
+        h.add_edge(tuple(new))
+        edges = [e for e in edges if set(e) != set(old)] + [list(new)]
+        _walk_state(case, h, {"nodes": spec["nodes"], "edges": edges}, stats, traces, idx)
+        stats["requeries_after_rewire"] = stats.get("requeries_after_rewire", 0) + 1
+    return head
+
+
+def _walk_state(case, h, spec, stats, traces, phase):
+    from hypergraphx.dynamics import randwalk as RW
+
     n = len(spec["nodes"])
-    ctx = {"edges": short(spec["edges"], 300)}
-    fac = Facade(case["seed"], q=case["q"])
+    ctx = {"edges": short(spec["edges"], 300), "phase": phase}
+    fac = Facade(derive(case["seed"], "walkphase", phase), q=case["q"])
     try:
         with fac:
             K = np.array(RW.transition_matrix(h).todense())
